@@ -811,6 +811,8 @@ void prop_accuracy(const Case& cs) {
 // Only the empty filter is taken through serialize -> restore, and only one 512 MiB object is alive at a time.
 void prop_huge(const Case& cs) {
   vf::own_randomness(11);
+  // 512 MiB per case: only the first worker of a run does it (a replay has no worker id and always runs it)
+  if (vf::env("VF_WORKER", "0") != "0") { vf::label("capacity>=2^32:left-to-worker-0"); return; }
   const uint64_t nbits = (1ull << 32) + static_cast<uint64_t>(std::min<int64_t>(4096, std::max<int64_t>(-63, cs.get("delta", 0))));
   const uint16_t nh = static_cast<uint16_t>(1 + cs.get("nh", 0) % 5);
   const uint64_t seed = vf::mix64(static_cast<uint64_t>(cs.get("seed", 0)));
